@@ -221,9 +221,11 @@ def main():
     muts = []
     for f in spec["files"]:
         muts.extend(gen_mutants(f, open(os.path.join("/repo", f), encoding="utf-8", errors="surrogateescape").read()))
+    off = float(sys.argv[sys.argv.index("--offset") + 1]) if "--offset" in sys.argv else 0.0      # a second, disjoint sample: --offset 0.5
+    tag = sys.argv[sys.argv.index("--tag") + 1] if "--tag" in sys.argv else ""
     if len(muts) > mx:
         step = len(muts) / float(mx)
-        muts = [muts[int(k * step)] for k in range(mx)]
+        muts = [muts[min(len(muts) - 1, int((k + off) * step))] for k in range(mx)]
     print("%s: %d mutants" % (name, len(muts)), flush=True)
     outdir = os.path.join(VERIF, "mutation")
     os.makedirs(outdir, exist_ok=True)
@@ -269,6 +271,7 @@ def main():
         list(ex.map(run_one, todo))
     for w in workers:
         w.cleanup()
+    name = name + tag
     with open(os.path.join(outdir, name + ".jsonl"), "w") as f:
         for m in muts:
             f.write(json.dumps(m) + "\n")
